@@ -142,7 +142,7 @@ class Recommendations:
         if not isinstance(commands, list):
             print_warning(f"commands are ignored (should be a list).")
             commands = []
-        current = set(self.db_programs)
+        current = set(self.selected_programs)
         print(f"\nProcessing {len(commands)} commands on {len(current)} programs.")
 
         # Execute sequentially all the commands of the pipeline
